@@ -99,13 +99,16 @@ class Side:
             # the threaded disconnect() stops at the first whose queue nobody drains - known finding KF-C15 - and the servers differ)
             if getattr(self, 'disc_all', False) or len([x for x in self.sids if x not in getattr(self, 'ended', set())]) > 1:
                 return False
+            if VARIANT[0] == 'sleepy':
+                return False      # (a disconnect() suspended in a slow handler overlaps later actions: schedule-level, not history-level)
             self.disc_all = True
             w.call('disconnect')
             w.run()
             return True
         if sid is None:
             return False
-        if a in ('post_close', 'ws_closeframe', 'ws_peer_close', 'disconnect_sid'):
+        if a in ('post_close', 'disconnect_sid') or (a in ('ws_closeframe', 'ws_peer_close') and self.hs.get(sid) == 'open'):
+            # (closing a socket that is still in its upgrade handshake does not end the session)
             self.ended = getattr(self, 'ended', set()) | {sid}
         if a == 'poll':
             if len(self.polls[sid]) >= 3:
